@@ -7,8 +7,10 @@ tie    : C  extracted model (build/modelrun_ignore: report_vcl) vs the real lint
             (build/implrun lint-ignore: l.Errors as (rule, line)) on generated programs with 0, 1 or 2
             directives in every kind of slot; exhaustive over all statement-tree shapes up to a
             bound x every single-directive placement.
-oracle : on the implementation alone: errors(with directive) = errors(without) minus exactly those
-         located in the covered statement(s) and named by the directive.
+oracle : on the implementation alone, for EVERY case: errors(with directives) = errors(without) minus exactly
+         those located in the covered statement(s) and named by the directive(s).  One construct is a recorded
+         known finding (two overlapping start..end pairs that share rules: overlap_facts); a deviation there
+         prints KNOWN-FINDING, any other deviation is a VIOLATION.
 """
 import os
 import vcommon as V
@@ -39,7 +41,7 @@ def locate(prog, errs):
 
 
 class Case:
-    __slots__ = ("prog", "placements", "src", "covered", "oracle_ok", "label", "desc", "nbase")
+    __slots__ = ("prog", "placements", "src", "covered", "facts", "label", "desc", "nbase")
 
 
 def slots_of(prog):
@@ -67,10 +69,11 @@ def apply_placement(prog, pl):
     """pl = dict(kind, node, where, text) ; appended in order"""
     node = pl["node"]
     lst = getattr(node, pl["where"])
+    pl["obj"] = G.Tagged(pl["text"])
     if pl.get("front"):
-        lst.insert(0, pl["text"])
+        lst.insert(0, pl["obj"])
     else:
-        lst.append(pl["text"])
+        lst.append(pl["obj"])
 
 
 def covered_by(prog, d):
@@ -165,15 +168,25 @@ def expected_by_oracle(prog, base_located, ds):
     return sorted(out)
 
 
-def oracle_applicable(prog, ds):
+KNOWN_OVERLAP = {"construct": "overlapping-ranges-sharing-rules"}
+
+
+def overlap_facts(prog, ds):
+    """The one construct for which the implementation is known (known_findings.txt) not to follow the
+    property: two start..end pairs whose source extents overlap (one starts before the other has ended:
+    nested or interleaved) AND whose rule lists are not disjoint (a bare pair names every rule).  The
+    range set is one set: the end of the inner pair removes its rules from it, also for the outer pair.
+    Call after prog.render().  Returns the facts for ctx.violation, or None."""
     rs = [d for d in ds if d["form"] == "range"]
     if len(rs) < 2:
-        return True
+        return None
     a, b = rs[0], rs[1]
-    if covered_by(prog, a) & covered_by(prog, b):
-        return False
-    slots = [(id(p["node"]), p["where"]) for d in rs for p in d["placements"]]
-    return len(set(slots)) == len(slots)
+    (sa, ea), (sb, eb) = [tuple(prog.cline[id(p["obj"])] for p in d["placements"]) for d in (a, b)]
+    if ea < sb or eb < sa:
+        return None                      # one pair is closed before the other opens
+    if a["rules"] and b["rules"] and not (set(a["rules"]) & set(b["rules"])):
+        return None                      # disjoint rule lists: the pairs do not interfere
+    return dict(KNOWN_OVERLAP)
 
 
 def corpus_cases():
@@ -209,6 +222,7 @@ def run(ctx):
         "strings.TrimSpace is modelled for ASCII white space only (generated rule lists are ASCII)",
     ]
     viol = []   # (size, what, replay, facts)
+    known_v = []   # deviations inside the recorded known construct (smallest few kept)
 
     # ---------------- corpus (minimised inputs of repaired defects): recorded expectation
     cc = corpus_cases()
@@ -301,6 +315,8 @@ def run(ctx):
                              % (c.desc, sorted(set(got) - set(mod))[:6], sorted(set(mod) - set(got))[:6]), replay, None))
             else:
                 stat["agree"] += 1
+            if c.facts:
+                stat["overlap_cases"] = stat.get("overlap_cases", 0) + 1
             if exp is not None:
                 stat["oracle_checked"] += 1
                 if got != exp:
@@ -309,7 +325,9 @@ def run(ctx):
                     what = ("ignore comment does not suppress exactly what it covers [%s]: " % c.desc
                             + ("still reported inside the covered statements %s; " % extra[:6] if extra else "")
                             + ("suppressed outside the covered statements / unnamed rules %s" % missing[:6] if missing else ""))
-                    viol.append((size, what, dict(replay, expected=exp, got=got), None))
+                    if c.facts:
+                        stat["known_overlap"] = stat.get("known_overlap", 0) + 1
+                    (known_v if c.facts else viol).append((size, what, dict(replay, expected=exp, got=got), c.facts))
                 else:
                     stat["oracle_agree"] += 1
                     if len(exp) < c.nbase:
@@ -321,6 +339,9 @@ def run(ctx):
         if len(viol) > 400:
             viol.sort(key=lambda v: v[0])
             del viol[200:]
+        if len(known_v) > 20:
+            known_v.sort(key=lambda v: v[0])
+            del known_v[5:]
         del cases[:]
 
     def add_case(label, p, ds):
@@ -338,8 +359,8 @@ def run(ctx):
         c.nbase = len(loc)
         c.covered = (p.sexp(dg), {n.line: n.id for n in p.nodes() if n.kind != "block" and n.line is not None},
                      {k: v.id for k, v in p.model_paths().items()})
-        c.oracle_ok = oracle_applicable(p, ds)
-        cases.append((c, expected_by_oracle(p, loc, ds) if c.oracle_ok else None))
+        c.facts = overlap_facts(p, ds)
+        cases.append((c, expected_by_oracle(p, loc, ds)))
         if len(cases) >= 20000:
             flush()
 
@@ -391,11 +412,12 @@ def run(ctx):
 
     # ---------------- verdict
     viol.sort(key=lambda v: v[0])
+    known_v.sort(key=lambda v: v[0])
     seen = {}
-    for size, what, replay, facts in viol:
-        cat = what.split("[")[0][:60]
+    for size, what, replay, facts in viol + known_v[:3]:
+        cat = ("known: " if facts else "") + what.split("[")[0][:60]
         seen[cat] = seen.get(cat, 0) + 1
-        if seen[cat] <= 2:
+        if seen[cat] <= 2 or facts:
             ctx.violation(what, replay, facts)
     if not proved and not ctx.violations:
         ctx.violation("proof obligation of C12 no longer checks: " + (ctx.broken or "Props/C12.v"),
@@ -410,6 +432,8 @@ def run(ctx):
                             "x every next-line slot, this-line slot and start/end pair, with and without a rule list" % max_shape,
         "exhaustive_single_directive_cases": exhaustive_n,
         "model_impl_agree": stat["agree"], "oracle_checked": stat["oracle_checked"], "oracle_agree": stat["oracle_agree"],
+        "overlapping_range_pairs_sharing_rules": stat.get("overlap_cases", 0),
+        "of_which_deviate_from_the_property_(known finding)": stat.get("known_overlap", 0),
         "cases_where_directive_removed_something": stat["nontrivial"],
         "of_which_other_diagnostics_remained": stat["leak_detectors"],
         "directive_forms": dict(sorted(forms.items())),
